@@ -351,7 +351,7 @@ def body(case):
 def plan(tier):
     if tier == "quick":
         return [{"name": "trees%d" % i, "n": 60} for i in range(16)]
-    return [{"name": "trees%d" % i, "n": 400} for i in range(16)]
+    return [{"name": "trees%d" % i, "n": 1500} for i in range(16)]
 
 
 def run(shard, seed, ctx):
